@@ -71,8 +71,8 @@ CHECKS.update({
     "C20": dict(engine="seqds", spec="PQ.tla, PQ_Trace.tla (minimum of (key, epoch); handle designates its own entry only)",
                 text="TLC enumerates every sequence of insert/pull/peek/extract operations (with retained and stale "
                      "handles, hence slot reuse) up to the length bound and the value each must return; all are replayed "
-                     "on the real PriorityQueue and IndexedPriorityQueue; long seeded sequences are validated against "
-                     "PQ_Trace.tla.",
+                     "on the real PriorityQueue and IndexedPriorityQueue; long seeded sequences (over a thousand live entries, complete "
+                     "drains, insertion counts beyond 2^16 through the churn action) are validated against PQ_Trace.tla.",
                 design="6/C20", note=SEQ_NOTE),
 })
 
@@ -148,10 +148,14 @@ CHECKS.update({
 })
 
 CHECKS.update({
-    "C12": dict(engine="queue", spec="MpscQueue.tla (Bounded, NoCellRace, NoUnreachable, PoppedOnce, PerProducerFifo, NoSkip, "
+    "C12": dict(engine="queue", spec="QueueRA.tla (release/acquire memory model: NoDataRace, FifoExactlyOnce), MpscQueue.tla (Bounded, NoCellRace, NoUnreachable, PoppedOnce, PerProducerFifo, NoSkip, "
                                     "LenWhenQuiescent, ResultsOk), MpscQueue_Trace.tla, Channel.tla (Bounded, Lossless, "
                                     "CountExact, NoStuckSender, NoStuckReceiver)",
-                text="The queue's push/pop/release/close/len are transcribed at atomic-operation granularity with the "
+                text="The memory orderings of every atomic operation of push/pop/MessageBorrow::drop and the program order of "
+                     "cell access and stamp publication are read from queue.rs and instantiate QueueRA.tla, a view-based "
+                     "release/acquire model on which TLC decides that no message cell is accessed by a thread not entitled "
+                     "to see its latest write (any weakened ordering yields a counterexample). "
+                     "The queue's push/pop/release/close/len are transcribed at atomic-operation granularity with the "
                      "code's own position/stamp arithmetic; TLC explores every interleaving for capacities 1-3 and 2-3 "
                      "producers; every sequential operation history up to the bound is replayed on the real queue (V1 "
                      "facade) and each result compared; executions of real producer/consumer threads are logged as "
@@ -159,8 +163,9 @@ CHECKS.update({
                      "searches the interleaving). The wake-up protocol (suspended senders' FIFO wait set, receiver waker, "
                      "close) is Channel.tla at the granularity of one poll of a future: every history up to the bound is "
                      "replayed on the real channel with counting wakers and every observable compared.",
-                design="6/C12", note="Trusted: TLC/SANY, harness. Sequentially consistent interleavings only: weaker memory "
-                                     "orderings are not decided. Channel.tla is sequential (one polling thread): concurrent "
+                design="6/C12", note="Trusted: TLC/SANY, harness, the pattern-matching extractor of orderings. QueueRA.tla has no load "
+                                     "buffering, append-only modification orders and no close(); MpscQueue.tla is sequentially "
+                                     "consistent. Channel.tla is sequential (one polling thread): concurrent "
                                      "interleavings of the wake-up protocol are exercised end to end by the Bench checks "
                                      "(lost wake-up = stall), not enumerated."),
     "C19": dict(engine="simcore", spec="SimCore_Trace.tla (TDrop: balanced release of models, messages, handler futures; "
@@ -247,7 +252,7 @@ def main():
                                     "cargo test --workspace --no-fail-fast --offline",
                    source_commits=hook_commits, add_only=True),
         engines=[
-            dict(name="queue", path="/verif/specs/MpscQueue.tla /verif/specs/MC_MpscQueue.tla /verif/specs/MpscQueue_Trace.tla "
+            dict(name="queue", path="/verif/specs/QueueRA.tla /verif/tools/orderings.py /verif/specs/MpscQueue.tla /verif/specs/MC_MpscQueue.tla /verif/specs/MpscQueue_Trace.tla "
                                     "/verif/tools/check_queue.py /verif/harness/src/queue.rs",
                  serves_properties=["C12"],
                  kind_free_text="TLC interleaving exploration + sequential history replay + linearisability checking of "
